@@ -92,6 +92,9 @@ type absInterp struct {
 	globals map[*ssa.Global]*acell
 	steps   int
 	depth   int
+	// intFloats: integral float64 constants are carried as integers (for code whose floating-point arithmetic stays on
+	// integers: digit accumulation); set by the rule that knows this of the function it evaluates
+	intFloats bool
 }
 
 func newAbsInterp(hooks map[string]absHook) *absInterp {
@@ -311,6 +314,11 @@ func (in *absInterp) constVal(c *ssa.Const) aval {
 	case constant.Int:
 		n, _ := constant.Int64Val(c.Value)
 		return aInt(n)
+	}
+	if in.intFloats && c.Value.Kind() == constant.Float {
+		if f, exact := constant.Float64Val(c.Value); exact && f == float64(int64(f)) && f > -9e15 && f < 9e15 {
+			return aInt(int64(f))
+		}
 	}
 	in.fail("constant %s", c)
 	return nil
@@ -1319,6 +1327,8 @@ func (in *absInterp) convert(x *ssa.Convert, v aval) aval {
 					n = int64(uint32(n))
 				}
 				return aInt(n)
+			case bt.Info()&types.IsFloat != 0 && in.intFloats:
+				return src // an integer carried in a float64 (see intFloats)
 			}
 		}
 	case aStr:
